@@ -124,7 +124,7 @@ theorem lehmer_xy_total {N : Nat} {s : St} {xtop ytop : Nat} (hb : bits s.x + 36
 
 /-- the non-extended iteration never panics on values of `BUint<N>` -/
 theorem gcdStep_noext_total {N : Nat} {s0 : St} (hx : s0.x < M N) (hy : s0.y < M N) :
-    ∃ st, gcdStep N false s0 = some st := by
+    ∃ st, gcdStep N K false s0 = some st := by
   obtain ⟨hyx, _, hrange⟩ := swapSt_facts s0
   obtain ⟨hxM, hyM⟩ := hrange (M N) hx hy
   unfold gcdStep
@@ -159,7 +159,7 @@ theorem gcdStep_noext_total {N : Nat} {s0 : St} (hx : s0.x < M N) (hy : s0.y < M
 
 /-- the non-extended loop returns a value for every pair of `BUint<N>` operands -/
 theorem gcdLoop_noext_total {N : Nat} : ∀ (f : Nat) (s : St), s.x < M N → s.y < M N →
-    s.x * s.y * 3 ^ f < 4 ^ f → ∃ r, gcdLoop N false (f + 1) s = some r := by
+    s.x * s.y * 3 ^ f < 4 ^ f → ∃ r, gcdLoop N K false (f + 1) s = some r := by
   intro f
   induction f with
   | zero =>
@@ -194,6 +194,421 @@ theorem gcdInternal_noext_total {N : Nat} {n p : Nat} (hn : n < M N) (hp : p < M
   unfold gcdInternal
   obtain ⟨r, hr⟩ := gcdLoop_noext_total (N := N) (3 * (bits n + bits p)) (initSt n p) hn hp
     (fuel_arith n p)
+  rw [gcdLoop_fuel hn hp _ (gcdFuel_ge hn hp), hr]
+  exact ⟨r, rfl⟩
+
+
+theorem egcdLoop_exit (f : Nat) (r1 s0 s1 t0 t1 : Int) (h : 0 ≤ r1) :
+    egcdLoop (f + 1) 0 r1 s0 s1 t0 t1 = some (r1, s1, t1) := by
+  simp [egcdLoop, h]
+
+theorem egcdLoop_step (f : Nat) (r0 r1 s0 s1 t0 t1 q : Int) (h0 : r0 ≠ 0)
+    (hq : chkI64 (r1.tdiv r0) = some q)
+    (h1 : chkI64 (q * r0) = some (q * r0)) (h2 : chkI64 (q * s0) = some (q * s0))
+    (h3 : chkI64 (q * t0) = some (q * t0)) (h4 : chkI64 (r1 - q * r0) = some (r1 - q * r0))
+    (h5 : chkI64 (s1 - q * s0) = some (s1 - q * s0)) (h6 : chkI64 (t1 - q * t0) = some (t1 - q * t0)) :
+    egcdLoop (f + 1) r0 r1 s0 s1 t0 t1 = egcdLoop f (r1 - q * r0) r0 (s1 - q * s0) s0 (t1 - q * t0) t0 := by
+  simp [egcdLoop, h0, hq, h1, h2, h3, h4, h5, h6]
+
+/-- one column of cofactors in a Euclid step: signs alternate, `|s0| r1 + |s1| r0` is invariant -/
+theorem egcd_col {s0 s1 : Int} {a r q Z : Nat} {b : Int} (hb : b = a * q + r) (ha : 0 < a)
+    (hs : s0 * s1 ≤ 0) (es : |s0| * b + |s1| * a = Z) :
+    (s1 - q * s0) * s0 ≤ 0 ∧ |s1 - q * s0| * a + |s0| * r = Z ∧ |s1 - q * s0| ≤ Z ∧
+    |(q : Int) * s0| ≤ Z := by
+  have hqI : (0 : Int) ≤ q := Int.natCast_nonneg _
+  have hrI : (0 : Int) ≤ r := Int.natCast_nonneg _
+  have haI : (1 : Int) ≤ a := by exact_mod_cast ha
+  have es' : |s1 - q * s0| = q * |s0| + |s1| := by
+    rw [abs_sub_comm]; exact abs_mul_sub_opp hqI (by linarith [mul_comm s0 s1])
+  have hs0n := abs_nonneg s0
+  have hs1n := abs_nonneg s1
+  have ids : |s1 - q * s0| * a + |s0| * r = Z := by
+    rw [es', ← es, hb]; ring
+  have h1 : 0 ≤ |s0| * r := mul_nonneg hs0n hrI
+  have h2 : |s1 - q * s0| ≤ |s1 - q * s0| * a := le_mul_of_one_le_right (abs_nonneg _) haI
+  have bs' : |s1 - q * s0| ≤ Z := by linarith
+  refine ⟨by nlinarith [mul_self_nonneg s0], ids, bs', ?_⟩
+  rw [abs_mul, abs_of_nonneg hqI]; linarith
+
+theorem chkI64_of_abs {z : Int} {X : Nat} (hX : X < 9223372036854775808) (h : |z| ≤ X) :
+    chkI64 z = some z := by
+  have hI : I63 = 9223372036854775808 := rfl
+  have := abs_le.1 h
+  exact chkI64_of_range (by rw [hI]; omega) (by rw [hI]; omega)
+
+/-- `extended_gcd` on i64 never overflows for `0 < Y <= X < 2^63`; cofactors bounded by the operands -/
+theorem egcdLoop_total (X Y : Nat) (hX : X < 9223372036854775808) (hYX : Y ≤ X) :
+    ∀ (f a b : Nat) (s0 s1 t0 t1 : Int), a ≤ b → b ≤ X →
+    s0 * s1 ≤ 0 → t0 * t1 ≤ 0 → |s0| * b + |s1| * a = Y → |t0| * b + |t1| * a = X →
+    |s0| ≤ Y → |s1| ≤ Y → |t0| ≤ X → |t1| ≤ X → a * b < 2 ^ f →
+    ∃ g s t, egcdLoop (f + 1) a b s0 s1 t0 t1 = some (g, s, t) ∧ |s| ≤ Y ∧ |t| ≤ X := by
+  intro f
+  induction f with
+  | zero =>
+    intro a b s0 s1 t0 t1 hab hbX _ _ _ _ _ hs1 _ ht1 hm
+    have ha : a = 0 := by
+      have : a * b = 0 := by simpa using hm
+      rcases Nat.mul_eq_zero.1 this with h | h <;> omega
+    subst ha
+    exact ⟨_, _, _, egcdLoop_exit 0 _ _ _ _ _ (Int.natCast_nonneg b), hs1, ht1⟩
+  | succ f ih =>
+    intro a b s0 s1 t0 t1 hab hbX hs ht es et bs0 bs1 bt0 bt1 hm
+    by_cases ha : a = 0
+    · subst ha
+      exact ⟨_, _, _, egcdLoop_exit _ _ _ _ _ _ (Int.natCast_nonneg b), bs1, bt1⟩
+    · have hapos : 0 < a := Nat.pos_of_ne_zero ha
+      have hdm := Nat.div_add_mod b a
+      have hmod := two_mod_le hapos hab
+      have hrlt : b % a < a := Nat.mod_lt _ hapos
+      have hqle : b / a ≤ b := Nat.div_le_self _ _
+      have etd : (b : Int).tdiv a = ((b / a : Nat) : Int) := (Int.ofNat_tdiv b a).symm
+      generalize b / a = q at *
+      generalize b % a = r at *
+      have hbI : (b : Int) = a * q + r := by exact_mod_cast hdm.symm
+      obtain ⟨k1, k2, k3, k4⟩ := egcd_col hbI hapos hs es
+      obtain ⟨l1, l2, l3, l4⟩ := egcd_col hbI hapos ht et
+      have hYI : (Y : Int) ≤ X := by omega
+      have hrem : (b : Int) - q * a = r := by rw [hbI]; ring
+      have hqaN : q * a ≤ b := by rw [Nat.mul_comm]; omega
+      have c0 : chkI64 ((b : Int).tdiv a) = some (q : Int) := by
+        rw [etd]; exact chkI64_of_abs hX (by rw [abs_of_nonneg (Int.natCast_nonneg q)]; omega)
+      have c1 : chkI64 ((q : Int) * a) = some ((q : Int) * a) := by
+        have e : (q : Int) * a = ((q * a : Nat) : Int) := by push_cast; ring
+        rw [e]; exact chkI64_of_abs hX (by rw [abs_of_nonneg (Int.natCast_nonneg _)]; omega)
+      have c2 := chkI64_of_abs hX (le_trans k4 hYI)
+      have c3 := chkI64_of_abs hX l4
+      have c4 : chkI64 ((b : Int) - q * a) = some ((b : Int) - q * a) := by
+        rw [hrem]; exact chkI64_of_abs hX (by rw [abs_of_nonneg (Int.natCast_nonneg r)]; omega)
+      have c5 := chkI64_of_abs hX (le_trans k3 hYI)
+      have c6 := chkI64_of_abs hX l3
+      have ha0 : (a : Int) ≠ 0 := by omega
+      rw [egcdLoop_step (f + 1) a b s0 s1 t0 t1 q ha0 c0 c1 c2 c3 c4 c5 c6, hrem]
+      refine ih r a (s1 - q * s0) s0 (t1 - q * t0) t0 (by omega) (by omega) k1 l1 k2 l2 k3 bs0 l3 bt0 ?_
+      have e : 2 ^ (f + 1) = 2 ^ f * 2 := Nat.pow_succ _ _
+      rw [e] at hm
+      have : 2 * (r * a) ≤ a * b := by
+        calc 2 * (r * a) = a * (2 * r) := by ring
+          _ ≤ a * b := Nat.mul_le_mul_left _ hmod
+      omega
+
+/-- `Integer::extended_gcd(x0, y0)` for `0 < y0 <= x0 < 2^63` -/
+theorem egcdI64_total {X Y : Nat} (hX : X < 9223372036854775808) (hY : 0 < Y) (hYX : Y ≤ X) :
+    ∃ g s t, egcdI64 X Y = some (g, s, t) ∧ |s| ≤ Y ∧ |t| ≤ X := by
+  have hm : Y * X < 2 ^ 199 := by
+    have h1 : Y * X < 2 ^ 63 * 2 ^ 63 :=
+      Nat.mul_lt_mul_of_lt_of_le (by omega) (by omega) (by norm_num)
+    have h2 : (2 : Nat) ^ 63 * 2 ^ 63 ≤ 2 ^ 199 := by norm_num
+    omega
+  exact egcdLoop_total X Y hX hYX 199 Y X 0 1 1 0 hYX (Nat.le_refl _) (by simp) (by simp)
+    (by simp) (by simp) (by simp) (by simp; omega) (by simp; omega) (by simp) hm
+
+
+/-- `BInt<K>` range check passes below the bound `L <= 2^(64K-1)` -/
+theorem chkB_of_abs {K : Nat} {z L : Int} (hL : L ≤ ((M K / 2 : Nat) : Int)) (h : |z| < L) :
+    chkB K z = some z := by
+  have := abs_lt.1 h
+  exact chkB_of_range (by omega) (by omega)
+
+theorem lin2_total {K : Nat} {p A q C P B L : Int} (hL : L ≤ ((M K / 2 : Nat) : Int))
+    (hp : |p| ≤ P) (hA : |A| ≤ B) (hq : |q| ≤ P) (hC : |C| ≤ B) (hfit : 2 * P * B < L) :
+    lin2 K p A q C = some (p * A + q * C) ∧ |p * A + q * C| ≤ 2 * P * B := by
+  have hP : 0 ≤ P := le_trans (abs_nonneg _) hp
+  have hB : 0 ≤ B := le_trans (abs_nonneg _) hA
+  have h1 : |p * A| ≤ P * B := by rw [abs_mul]; exact mul_le_mul hp hA (abs_nonneg _) hP
+  have h2 : |q * C| ≤ P * B := by rw [abs_mul]; exact mul_le_mul hq hC (abs_nonneg _) hP
+  have h3 : |p * A + q * C| ≤ 2 * P * B := by
+    calc |p * A + q * C| ≤ |p * A| + |q * C| := abs_add_le _ _
+      _ ≤ 2 * P * B := by linarith
+  have hPB : 0 ≤ P * B := mul_nonneg hP hB
+  unfold lin2
+  rw [chkB_of_abs hL (by linarith), chkB_of_abs hL (by linarith)]
+  simp only
+  exact ⟨chkB_of_abs hL (by linarith), h3⟩
+
+theorem subMul_total {K : Nat} {A q C P B L : Int} (hL : L ≤ ((M K / 2 : Nat) : Int))
+    (hA : |A| ≤ B) (hq : |q| ≤ P) (hC : |C| ≤ B) (hP1 : 1 ≤ P) (hfit : 2 * P * B < L) :
+    subMul K A q C = some (A - q * C) ∧ |A - q * C| ≤ 2 * P * B := by
+  have hB : 0 ≤ B := le_trans (abs_nonneg _) hA
+  have h2 : |q * C| ≤ P * B := by rw [abs_mul]; exact mul_le_mul hq hC (abs_nonneg _) (by linarith)
+  have hPB : B ≤ P * B := by nlinarith
+  have h3 : |A - q * C| ≤ 2 * P * B := by
+    calc |A - q * C| ≤ |A| + |q * C| := abs_sub _ _
+      _ ≤ 2 * P * B := by linarith
+  unfold subMul
+  rw [chkB_of_abs hL (by linarith)]
+  simp only
+  exact ⟨chkB_of_abs hL (by linarith), h3⟩
+
+theorem mulSub_total {K : Nat} {A q C P B L : Int} (hL : L ≤ ((M K / 2 : Nat) : Int))
+    (hA : |A| ≤ B) (hq : |q| ≤ P) (hC : |C| ≤ B) (hP1 : 1 ≤ P) (hfit : 2 * P * B < L) :
+    mulSub K q C A = some (q * C - A) ∧ |q * C - A| ≤ 2 * P * B := by
+  have hB : 0 ≤ B := le_trans (abs_nonneg _) hA
+  have h2 : |q * C| ≤ P * B := by rw [abs_mul]; exact mul_le_mul hq hC (abs_nonneg _) (by linarith)
+  have hPB : B ≤ P * B := by nlinarith
+  have h3 : |q * C - A| ≤ 2 * P * B := by
+    calc |q * C - A| ≤ |q * C| + |A| := abs_sub _ _
+      _ ≤ 2 * P * B := by linarith
+  unfold mulSub
+  rw [chkB_of_abs hL (by linarith)]
+  simp only
+  exact ⟨chkB_of_abs hL (by linarith), h3⟩
+
+theorem M_half_ge {N : Nat} (hN : 0 < N) : 2 ≤ M N / 2 := by
+  unfold M
+  have : 2 ^ 64 ≤ 2 ^ (64 * N) := Nat.pow_le_pow_right (by decide) (by omega)
+  omega
+
+theorem castB_abs {N q : Nat} (hN : 0 < N) (hq : q < M N) :
+    |castB N q| ≤ (M N : Int) - 1 ∧ |castB N q + 1| ≤ (M N : Int) := by
+  unfold castB
+  have hM := M_half_ge hN
+  have hqI : (q : Int) < (M N : Int) := by exact_mod_cast hq
+  have h0 : (0 : Int) ≤ q := Int.natCast_nonneg _
+  split
+  · constructor
+    · rw [abs_of_nonneg h0]; omega
+    · rw [abs_of_nonneg (by omega)]; omega
+  · have hneg : (q : Int) - (M N : Int) < 0 := by omega
+    constructor
+    · rw [abs_of_neg hneg]; omega
+    · rw [abs_of_nonpos (by omega)]; omega
+
+
+/-- all four cofactors are bounded by `B` in absolute value -/
+def CofLe (s : St) (B : Int) : Prop := |s.A| ≤ B ∧ |s.B| ≤ B ∧ |s.C| ≤ B ∧ |s.D| ≤ B
+
+theorem CofLe_swap {s : St} {B : Int} (h : CofLe s B) : CofLe (swapSt s) B := by
+  unfold swapSt
+  split
+  · exact ⟨h.2.2.1, h.2.2.2, h.1, h.2.1⟩
+  · exact h
+
+theorem M_pos (N : Nat) : 0 < M N := Nat.pow_pos (by decide)
+
+/-- extended quotient step: no panic as long as the cofactors are far enough from the `BInt<K>`
+range; they grow at most by the factor `2 * 2^(64N)` -/
+theorem fallbackStep_ext_total {N K : Nat} (hN : 0 < N) {s : St} {B L : Int} (hy0 : s.y ≠ 0)
+    (hxM : s.x < M N) (hc : CofLe s B) (hB1 : 1 ≤ B)
+    (hL : L ≤ ((M K / 2 : Nat) : Int)) (hfit : 2 * (M N : Int) * B < L) :
+    ∃ s', fallbackStep N K true s = some s' ∧ CofLe s' (2 * (M N : Int) * B) := by
+  obtain ⟨hA, hB, hC, hD⟩ := hc
+  have hypos : 0 < s.y := Nat.pos_of_ne_zero hy0
+  have hMI : (1 : Int) ≤ (M N : Int) := by exact_mod_cast M_pos N
+  have hdm := Nat.div_add_mod s.x s.y
+  have hrlt : s.x % s.y < s.y := Nat.mod_lt _ hypos
+  have hqy : s.x / s.y * s.y ≤ s.x := Nat.div_mul_le_self _ _
+  have hr : s.x - s.x / s.y * s.y = s.x % s.y := by
+    have e : s.x / s.y * s.y = s.y * (s.x / s.y) := Nat.mul_comm _ _
+    omega
+  have hqM : s.x / s.y < M N := Nat.lt_of_le_of_lt (Nat.div_le_self _ _) hxM
+  obtain ⟨cb1, cb2⟩ := castB_abs hN hqM
+  have hBle : B ≤ 2 * (M N : Int) * B := by nlinarith
+  have hMN_L : (M N : Int) < L := by nlinarith
+  unfold fallbackStep
+  simp only [if_true]
+  rw [show chkU N (s.x / s.y * s.y) = some (s.x / s.y * s.y) from by
+    unfold chkU; rw [if_pos (by omega)]]
+  simp only
+  rw [if_neg (by omega), hr]
+  by_cases hbr : s.x % s.y * 2 % M N > s.y
+  · rw [if_pos hbr, if_neg (by omega)]
+    rw [chkB_of_abs hL (lt_of_le_of_lt cb2 hMN_L)]
+    simp only
+    obtain ⟨m1, m2⟩ := mulSub_total (K := K) (A := s.A) (q := castB N (s.x / s.y) + 1) (C := s.C)
+      hL hA cb2 hC hMI hfit
+    obtain ⟨m3, m4⟩ := mulSub_total (K := K) (A := s.B) (q := castB N (s.x / s.y) + 1) (C := s.D)
+      hL hB cb2 hD hMI hfit
+    rw [m1, m3]
+    exact ⟨_, rfl, le_trans hC hBle, le_trans hD hBle, m2, m4⟩
+  · rw [if_neg hbr]
+    have cb1' : |castB N (s.x / s.y)| ≤ (M N : Int) := by linarith
+    obtain ⟨m1, m2⟩ := subMul_total (K := K) (A := s.A) (q := castB N (s.x / s.y)) (C := s.C)
+      hL hA cb1' hC hMI hfit
+    obtain ⟨m3, m4⟩ := subMul_total (K := K) (A := s.B) (q := castB N (s.x / s.y)) (C := s.D)
+      hL hB cb1' hD hMI hfit
+    rw [m1, m3]
+    exact ⟨_, rfl, le_trans hC hBle, le_trans hD hBle, m2, m4⟩
+
+theorem negIf_total {K : Nat} {neg : Bool} {z L Bd : Int} (hL : L ≤ ((M K / 2 : Nat) : Int))
+    (hz : |z| ≤ Bd) (hfit : Bd < L) :
+    ∃ r, (if neg = true then chkB K (-z) else some z) = some r ∧ |r| ≤ Bd := by
+  cases neg
+  · exact ⟨z, by simp, hz⟩
+  · refine ⟨-z, ?_, by rw [abs_neg]; exact hz⟩
+    simp only [if_true]
+    exact chkB_of_abs hL (by rw [abs_neg]; linarith)
+
+theorem two36_le_M {N : Nat} (hN : 0 < N) : (2 : Int) ^ 36 ≤ (M N : Int) := by
+  have : 2 ^ 36 ≤ M N := by
+    unfold M; exact Nat.pow_le_pow_right (by decide) (by omega)
+  exact_mod_cast this
+
+/-- extended Lehmer step: no panic as long as the cofactors are far enough from the `BInt<K>` range -/
+theorem lehmerStep_ext_total {N K : Nat} (hN : 0 < N) {s : St} {xtop ytop : Nat} {B L : Int}
+    (hb : bits s.x + 36 < 64 * N) (hyx : s.y ≤ s.x) (hxt : xtop < W) (hyt : ytop < W)
+    (h63 : 2 ^ 63 ≤ xtop) (hytx : ytop ≤ xtop) (h32 : 2 ^ 32 ≤ ytop)
+    (hc : CofLe s B) (hL : L ≤ ((M K / 2 : Nat) : Int)) (hfit : 2 * (M N : Int) * B < L) :
+    ∃ s', lehmerStep N K true s (bits s.x) xtop ytop = some s' ∧ CofLe s' (2 * (M N : Int) * B) := by
+  obtain ⟨hA, hB, hC, hD⟩ := hc
+  obtain ⟨a, b, c, d, r1, n1, r2, n2, hr, ba, bb, bc, bd, h1, h2⟩ :=
+    lehmer_xy_total (N := N) (s := s) hb hyx hxt hyt h63 hytx h32
+  have hM := two36_le_M hN
+  have ba' : |a| ≤ (M N : Int) := by linarith
+  have bb' : |b| ≤ (M N : Int) := by linarith
+  have bc' : |c| ≤ (M N : Int) := by linarith
+  have bd' : |d| ≤ (M N : Int) := by linarith
+  obtain ⟨l1, k1⟩ := lin2_total (K := K) hL ba' hA bb' hC hfit
+  obtain ⟨l2, k2⟩ := lin2_total (K := K) hL ba' hB bb' hD hfit
+  obtain ⟨l3, k3⟩ := lin2_total (K := K) hL bc' hA bd' hC hfit
+  obtain ⟨l4, k4⟩ := lin2_total (K := K) hL bc' hB bd' hD hfit
+  obtain ⟨aa, e1, g1⟩ := negIf_total (K := K) (neg := n1) hL k1 hfit
+  obtain ⟨bb2, e2, g2⟩ := negIf_total (K := K) (neg := n1) hL k2 hfit
+  obtain ⟨cc, e3, g3⟩ := negIf_total (K := K) (neg := n2) hL k3 hfit
+  obtain ⟨dd, e4, g4⟩ := negIf_total (K := K) (neg := n2) hL k4 hfit
+  unfold lehmerStep
+  simp only [hr, h1, h2, if_true, l1, l2, l3, l4, e1, e2, e3, e4]
+  exact ⟨_, rfl, g1, g2, g3, g4⟩
+
+theorem asI64_mod' {x : Nat} (h : bits x < 64) : asI64 (x % W) = (x : Int) := by
+  have hx := lt_of_bits_lt_64 h
+  rw [Nat.mod_eq_of_lt (by unfold W; omega), asI64_small hx]
+
+/-- the extended iteration never panics as long as the cofactors are far enough from the
+`BInt<K>` range; cofactors grow at most by the factor `2 * 2^(64N)` per iteration -/
+theorem gcdStep_ext_total {N K : Nat} (hN : 0 < N) {s0 : St} {B L : Int} (hx : s0.x < M N)
+    (hy : s0.y < M N) (hc : CofLe s0 B) (hB1 : 1 ≤ B)
+    (hL : L ≤ ((M K / 2 : Nat) : Int)) (hfit : 2 * (M N : Int) * B < L) :
+    ∃ st, gcdStep N K true s0 = some st ∧ ∀ s', st = .next s' → CofLe s' (2 * (M N : Int) * B) := by
+  obtain ⟨hyx, _, hrange⟩ := swapSt_facts s0
+  obtain ⟨hxM, hyM⟩ := hrange (M N) hx hy
+  have hcs := CofLe_swap hc
+  unfold gcdStep
+  simp only
+  generalize swapSt s0 = s at *
+  by_cases hlx : bits s.x = 0
+  · rw [if_pos hlx]; exact ⟨_, rfl, fun s' h => by simp at h⟩
+  · rw [if_neg hlx]
+    by_cases hly : bits s.y = 0
+    · rw [if_pos hly]; exact ⟨_, rfl, fun s' h => by simp at h⟩
+    · rw [if_neg hly]
+      have hy0 : s.y ≠ 0 := fun h0 => hly (bits_eq_zero.2 h0)
+      by_cases hsm : bits s.x < 64 ∧ bits s.y < 64
+      · rw [if_pos hsm]
+        simp only [if_true]
+        have hxs := lt_of_bits_lt_64 hsm.1
+        rw [asI64_mod' hsm.1, asI64_mod' hsm.2]
+        obtain ⟨g, ex, ey, he, b1, b2⟩ := egcdI64_total hxs (Nat.pos_of_ne_zero hy0) hyx
+        rw [he]
+        simp only
+        have hMI : ((2 ^ 63 : Nat) : Int) ≤ (M N : Int) := by
+          have : 2 ^ 63 ≤ M N := by unfold M; exact Nat.pow_le_pow_right (by decide) (by omega)
+          exact_mod_cast this
+        have hxI : (s.x : Int) ≤ (M N : Int) := by exact_mod_cast Nat.le_of_lt hxM
+        have hyI : (s.y : Int) ≤ (s.x : Int) := by exact_mod_cast hyx
+        obtain ⟨l1, _⟩ := lin2_total (K := K) hL (le_trans b1 (le_trans hyI hxI)) hcs.1
+          (le_trans b2 hxI) hcs.2.2.1 hfit
+        obtain ⟨l2, _⟩ := lin2_total (K := K) hL (le_trans b1 (le_trans hyI hxI)) hcs.2.1
+          (le_trans b2 hxI) hcs.2.2.2 hfit
+        rw [l1, l2]
+        exact ⟨_, rfl, fun s' h => by simp at h⟩
+      · rw [if_neg hsm]
+        have hbm := bits_mono hyx
+        have hmax : max (bits s.x) (bits s.y) = bits s.x := Nat.max_eq_left hbm
+        rw [hmax]
+        have h64 : 64 ≤ bits s.x := by omega
+        have hbN : bits s.x ≤ 64 * N := by unfold M at hxM; exact bits_le_of_lt hxM
+        obtain ⟨xt, yt, xl, yl, t1, t2, ex, ey, hxl, hyl, hxtW, h63, hytx⟩ :=
+          top_facts (N := N) hyx h64 hbN
+        rw [t1, t2]
+        simp only
+        by_cases hcnd : bits s.x + 36 ≥ N * 64 ∨ bits s.y + 36 ≥ N * 64 ∨ yt < 2 ^ 32
+        · rw [if_pos hcnd]
+          obtain ⟨s', hs', hc'⟩ := fallbackStep_ext_total (K := K) hN hy0 hxM hcs hB1 hL hfit
+          rw [hs']
+          exact ⟨_, rfl, fun s'' h => by simp at h; subst h; exact hc'⟩
+        · rw [if_neg hcnd]
+          obtain ⟨s', hs', hc'⟩ := lehmerStep_ext_total (K := K) hN (s := s) (by omega) hyx hxtW
+            (by omega) h63 hytx (by omega) hcs hL hfit
+          rw [hs']
+          exact ⟨_, rfl, fun s'' h => by simp at h; subst h; exact hc'⟩
+
+
+/-- the extended loop returns a value as long as the cofactor range `L` leaves room for a growth
+by `2 * 2^(64N)` per iteration -/
+theorem gcdLoop_ext_total {N K : Nat} (hN : 0 < N) {L : Int} (hL : L ≤ ((M K / 2 : Nat) : Int)) :
+    ∀ (f : Nat) (s : St) (B : Int), s.x < M N → s.y < M N → CofLe s B → 1 ≤ B →
+    (2 * (M N : Int)) ^ (f + 1) * B < L → s.x * s.y * 3 ^ f < 4 ^ f →
+    ∃ r, gcdLoop N K true (f + 1) s = some r := by
+  have hM1 : (1 : Int) ≤ 2 * (M N : Int) := by
+    have : (1 : Int) ≤ (M N : Int) := by exact_mod_cast M_pos N
+    linarith
+  intro f
+  induction f with
+  | zero =>
+    intro s B hx hy hc hB1 hfit hm
+    have hm0 : s.x * s.y = 0 := by simpa using hm
+    obtain ⟨st, hst, _⟩ := gcdStep_ext_total (K := K) hN hx hy hc hB1 hL (by simpa using hfit)
+    unfold gcdLoop
+    rw [hst]
+    cases st with
+    | ret d u v => exact ⟨_, rfl⟩
+    | next s' => exact absurd hm0 (gcdStep_zero hst)
+  | succ f ih =>
+    intro s B hx hy hc hB1 hfit hm
+    have hpow : (1 : Int) ≤ (2 * (M N : Int)) ^ (f + 1) := one_le_pow₀ hM1
+    have hB0 : (0 : Int) ≤ B := by linarith
+    have e : (2 * (M N : Int)) ^ (f + 1 + 1) * B = (2 * (M N : Int)) ^ (f + 1) * (2 * (M N : Int) * B) := by
+      rw [pow_succ]; ring
+    have hfit1 : 2 * (M N : Int) * B < L := by
+      have h2 : 0 ≤ 2 * (M N : Int) * B := mul_nonneg (by linarith) hB0
+      have : 2 * (M N : Int) * B ≤ (2 * (M N : Int)) ^ (f + 1) * (2 * (M N : Int) * B) :=
+        le_mul_of_one_le_left h2 hpow
+      rw [e] at hfit; linarith
+    obtain ⟨st, hst, hnext⟩ := gcdStep_ext_total (K := K) hN hx hy hc hB1 hL hfit1
+    rw [gcdLoop, hst]
+    cases st with
+    | ret d u v => exact ⟨_, rfl⟩
+    | next s' =>
+      simp only
+      obtain ⟨m1, m2, m3⟩ := gcdStep_measure hst hx hy
+      refine ih s' (2 * (M N : Int) * B) m2 m3 (hnext s' rfl) (by nlinarith) (by rw [← e]; exact hfit) ?_
+      have e3 : 3 ^ (f + 1) = 3 ^ f * 3 := Nat.pow_succ _ _
+      have e4 : 4 ^ (f + 1) = 4 ^ f * 4 := Nat.pow_succ _ _
+      rw [e3, e4] at hm
+      have : 4 * (s'.x * s'.y) * 3 ^ f ≤ 3 * (s.x * s.y) * 3 ^ f := Nat.mul_le_mul_right _ m1
+      have e5 : 3 * (s.x * s.y) * 3 ^ f = s.x * s.y * (3 ^ f * 3) := by ring
+      have e6 : 4 * (s'.x * s'.y) * 3 ^ f = 4 * (s'.x * s'.y * 3 ^ f) := by ring
+      omega
+
+/-- a cofactor width that is certainly sufficient -/
+def bigK (N f : Nat) : Nat := (N + 1) * (f + 2)
+
+theorem bigK_fits (N f : Nat) : (2 * (M N : Int)) ^ (f + 1) * 1 < ((M (bigK N f) / 2 : Nat) : Int) := by
+  have h1 : (2 * M N) ^ (f + 1) = 2 ^ ((64 * N + 1) * (f + 1)) := by
+    unfold M
+    rw [show 2 * 2 ^ (64 * N) = 2 ^ (64 * N + 1) from by rw [Nat.pow_succ]; ring, ← Nat.pow_mul]
+  have h2 : M (bigK N f) / 2 = 2 ^ (64 * bigK N f - 1) := by
+    unfold M
+    have hpos : 0 < 64 * bigK N f := by unfold bigK; positivity
+    have : 64 * bigK N f = (64 * bigK N f - 1) + 1 := by omega
+    rw [this, Nat.pow_succ]; simp
+  have h3 : (64 * N + 1) * (f + 1) < 64 * bigK N f - 1 := by
+    unfold bigK
+    have : (64 * N + 1) * (f + 1) + 2 ≤ 64 * ((N + 1) * (f + 2)) := by nlinarith
+    omega
+  have : (2 * M N) ^ (f + 1) < M (bigK N f) / 2 := by
+    rw [h1, h2]; exact Nat.pow_lt_pow_right (by decide) h3
+  rw [mul_one]
+  exact_mod_cast this
+
+/-- for every pair of `BUint<N>` operands there is a cofactor width for which the extended loop
+returns: no panic site other than the `BInt` range checks is reachable -/
+theorem gcdLoop_ext_exists {N : Nat} (hN : 0 < N) {n p : Nat} (hn : n < M N) (hp : p < M N) :
+    ∃ K r, gcdLoop N K true (gcdFuel N) (initSt n p) = some r := by
+  refine ⟨bigK N (3 * (bits n + bits p)), ?_⟩
+  obtain ⟨r, hr⟩ := gcdLoop_ext_total (K := bigK N (3 * (bits n + bits p))) hN (Int.le_refl _)
+    (3 * (bits n + bits p)) (initSt n p) 1 hn hp (by simp [CofLe, initSt]) (Int.le_refl _)
+    (bigK_fits N _) (fuel_arith n p)
   rw [gcdLoop_fuel hn hp _ (gcdFuel_ge hn hp), hr]
   exact ⟨r, rfl⟩
 
